@@ -62,22 +62,40 @@ class Ctx(object):
     def executor(self):
         return Executor(self.repo, MocloModels(), self.contracts)
 
-    def verify(self, keys):
-        """A-obligations for the listed (file, qual) functions under contract"""
+    def verify(self, keys, closure=True):
+        """A-obligations for the listed (file, qual) functions under contract -- and, transitively, for every in-repo
+        function whose contract was used at one of their call sites (verification is modular: a caller is checked against
+        the callee's contract, so the callee's own body must be checked in the same run for the property to be decided
+        by it; `trusted_body` contracts -- abstract hooks -- are reported as assumed)"""
         obs = []
-        for key in keys:
+        todo = list(keys)
+        done = set()
+        while todo:
+            key = todo.pop(0)
+            if key in done:
+                continue
+            done.add(key)
             con = self.contracts.get(key)
             if con is None:
                 self.fun_info.append(dict(function="%s::%s" % key, unreached="no contract"))
                 continue
             ex = self.executor()
             o, info = verify_function(ex, con, prop=self.prop)
+            if key not in keys:
+                info["dependency"] = True
+                for ob in o:
+                    ob.meta["dependency_of_listed_functions"] = True
             obs.extend(o)
             info.pop("_why", None)
             self.fun_info.append(info)
             self.used_models |= ex.used_models
             self.used_contracts |= ex.used_contracts
             self.inlined |= ex.inlined
+            if closure:
+                for name in sorted(ex.used_contracts):
+                    rel, qual = name.split("::", 1)
+                    if (rel, qual) not in done and (rel, qual) in self.contracts:
+                        todo.append((rel, qual))
         return obs
 
     def part(self, fn, label=None):
